@@ -118,7 +118,7 @@ Proof.
   unfold con_remove. intro H. break_match_hyp H; inversion H; subst; try reflexivity; eauto using ary_remove_err.
 Qed.
 
-Lemma root_of_value_err t e : root_of_value t = Err e -> plain_err e = true.
+Lemma root_of_value_err o t e : root_of_value o t = Err e -> plain_err e = true.
 Proof. unfold root_of_value. intro H. break_match_hyp H; inversion H; reflexivity. Qed.
 
 Lemma ensure_err o parts : forall c e c', ensure o parts c = (Some e, c') -> plain_err e = true.
@@ -281,7 +281,7 @@ Qed.
 
 (* ---- AllowMissingPathOnRemove is consulted by remove only ---- *)
 Definition set_allow (o : opts) (b : bool) : opts :=
-  mkOpts (o_neg o) (o_limit o) b (o_ensure o) (o_esc o) (o_nullsz o).
+  mkOpts (o_neg o) (o_limit o) b (o_ensure o) (o_esc o) (o_stale o) (o_nullsz o).
 
 Lemma walk_allow {A} o b parts : forall c (f : con -> A * con),
   walk (set_allow o b) parts c f = walk o parts c f.
